@@ -178,11 +178,15 @@ impl DomainResourceFilter {
     }
 }
 
+/// Labels from the root down, each prefixed with its length, so that one key is a prefix of
+/// another exactly when one name is a (label-wise) parent of the other
 fn get_key(name: &Name) -> Vec<u8> {
     name.get_labels()
         .iter()
         .rev()
-        .flat_map(|label| label.to_string().into_bytes())
+        .flat_map(|label| {
+            std::iter::once(label.len() as u8).chain(label.as_bytes().iter().copied())
+        })
         .collect()
 }
 
